@@ -1,17 +1,31 @@
 """C05 — energy store operations are atomic under every thread interleaving.
 
 Engine C: real threads running real ATP_Store methods under the controlled scheduler; every
-source line of operon_ai/state/metabolism.py is a scheduling point; the stores' threading.Lock
-is replaced by a scheduler-aware CoopLock (same mutual-exclusion semantics, blocking visible).
-Oracle: the outcome (every call's return value + final balances/debt/state of every store)
-must be one the *implementation itself* produces when the same calls run sequentially in
-some order consistent with each thread's program order.
+source line of operon_ai/state/metabolism.py is a scheduling point, and so is the gap between two
+lock acquisitions made by one line (PointLock below: `with a, b:` is one source line but two
+visible steps); the stores' threading.Lock/RLock is replaced by a scheduler-aware lock (same
+mutual-exclusion semantics, blocking visible).
+
+Oracles
+* linearizability: the outcome (every call's return value + final balances/debt/state/state-change
+  notifications of every store) must be one the *implementation itself* produces when the same
+  calls run sequentially in some order consistent with each thread's program order;
+* the statement's explicit clauses, judged from the public call history only (independent of the
+  implementation's sequential behaviour): balances never negative (at every scheduling point and
+  as returned by any getter), debt within [0, max_debt], the sum of successful spends never
+  exceeds what was available (start wealth + regenerated + debt taken), no deadlock, no livelock,
+  no escaping exception (in the X family the user's own callback raises: there the exception is
+  the call's expected result and must leave no lock behind).
+Not asserted (counted and noted instead): getters are lock-free single reads, so a value *read*
+concurrently with a multi-write mutator may be an intermediate one; `apply_debt_interest` is not
+one of the operations the statement lists and is unsynchronised in the code.
 """
 from __future__ import annotations
 
 import contextlib
 import io
 import itertools
+import threading
 
 from mc import common, sched
 
@@ -20,8 +34,14 @@ from operon_ai.state.metabolism import ATP_Store, EnergyType
 
 ET = {"ATP": EnergyType.ATP, "GTP": EnergyType.GTP, "NADH": EnergyType.NADH}
 TRACE = (metab.__file__,)
+GETTERS = ("get", "report")
 
-# harness = (store configs {name: (budget,gtp,nadh,max_debt)}, threads [[op,...],...])
+# harness = (store configs {name: (budget,gtp,nadh,max_debt[,options])}, threads [[op,...],...])
+#   options: silent (default True), cb (True: record on_state_change notifications; "raise": record, then raise
+#   ValueError()), interest (debt_interest)
+# SETUP[name] = calls applied sequentially before the threads start (start state reached through the public API)
+# OPTS[name]  = {"order": creation order of the stores ("_" = an unrelated store created in between; the
+#                creation order fixes the global lock ranks), "advisory": non-sequential outcomes are only counted}
 H = {
     "S1-consume-consume": ({"A": (5, 0, 0, 0)}, [[("consume", "A", 3, "ATP", False)], [("consume", "A", 3, "ATP", False)]]),
     "S2-consume-regenerate": ({"A": (4, 0, 0, 0)}, [[("consume", "A", 2, "ATP", False), ("consume", "A", 3, "ATP", False)],
@@ -50,7 +70,44 @@ H = {
                                                        [("express", "A", "RiskAssessor")]]),
     "S12-reset-vs-consume": ({"A": (3, 0, 0, 0)}, [[("consume", "A", 2, "ATP", False), ("reset", "A")], [("consume", "A", 2, "ATP", False)]]),
 }
-# --- systematic pair family: every unordered pair of operation kinds on a store in a "middle" state -----------
+SETUP = {}
+OPTS = {}
+
+# --- lock ranks: the same opposite transfers with the stores created in the other order (and an unrelated store
+# in between), and three-store transfer rings (every store is donor of one transfer and receiver of another) under
+# the two non-equivalent rank orders (one / two ring edges against the rank order)
+H["S5r-opposite-transfers-ranks-reversed"] = H["S5-opposite-transfers"]
+OPTS["S5r-opposite-transfers-ranks-reversed"] = {"order": ("B", "_", "A")}
+_RING = ({"A": (2, 0, 0, 0), "B": (2, 0, 0, 0), "C": (2, 0, 0, 0)},
+         [[("transfer", "A", "B", 1, "ATP")], [("transfer", "B", "C", 1, "ATP")], [("transfer", "C", "A", 1, "ATP")]])
+H["R1-transfer-ring"] = _RING
+H["R2-transfer-ring-ranks-reversed"] = _RING
+OPTS["R2-transfer-ring-ranks-reversed"] = {"order": ("C", "_", "B", "A")}
+# the cheap variant (every donor is under-funded, so only lock acquisition + balance check run): quick tier
+_RING0 = (_RING[0], [[op[:3] + (3,) + op[4:] for op in t] for t in _RING[1]])
+H["R0-underfunded-ring"] = _RING0
+H["R0r-underfunded-ring-ranks-reversed"] = _RING0
+OPTS["R0r-underfunded-ring-ranks-reversed"] = OPTS["R2-transfer-ring-ranks-reversed"]
+
+
+def pair_family(prefix, cfg, setup, ops, opts=None, skip=None):
+    """every unordered pair (with repetition) of the operation kinds, one kind per thread"""
+    out = []
+    names = sorted(ops)
+    for i, a in enumerate(names):
+        for b in names[i:]:
+            if skip and skip(a, b):
+                continue
+            n = f"{prefix}:{a}|{b}"
+            H[n] = (cfg, [ops[a], ops[b]])
+            SETUP[n] = setup
+            if opts:
+                OPTS[n] = opts
+            out.append(n)
+    return out
+
+
+# --- P: systematic pair family: every unordered pair of operation kinds on a store in a "middle" state --------
 # stores after SETUP: A = atp 2/4, nadh 3/3, debt 0/2 ; B = atp 2/3
 PAIR_CFG = {"A": (4, 0, 3, 2), "B": (3, 0, 0, 0)}
 PAIR_SETUP = [("consume", "A", 2, "ATP", False), ("consume", "B", 1, "ATP", False)]
@@ -66,17 +123,107 @@ PAIR_OPS = {
     "reset": [("reset", "A")],
     "dormancy": [("dormant_in", "A"), ("dormant_out", "A")],
 }
-SETUP = {}
-_names = sorted(PAIR_OPS)
-for _i, _a in enumerate(_names):
-    for _b in _names[_i:]:
-        _n = f"P:{_a}|{_b}"
-        H[_n] = (PAIR_CFG, [PAIR_OPS[_a], PAIR_OPS[_b]])
-        SETUP[_n] = PAIR_SETUP
-PAIRS = [n for n in H if n.startswith("P:")]
+PAIRS = pair_family("P", PAIR_CFG, PAIR_SETUP, PAIR_OPS)
+
+# --- G: the same idea over all three currencies, from a debt-carrying start state, with the non-default
+# constructor options (silent=False: the print branches run; on_state_change: notifications are part of the
+# outcome) and with getters running concurrently with the mutators.
+# stores after SETUP: A = atp 2/4, gtp 2/3, nadh 3/3, debt 1/3 (NORMAL) ; B = atp 2/3, gtp 2/3, nadh 2/3
+_GO = {"silent": False, "cb": True}
+G_CFG = {"A": (4, 3, 3, 3, _GO), "B": (3, 3, 3, 0, _GO)}
+G_SETUP = [("consume", "A", 4, "GTP", True), ("consume", "A", 2, "ATP", False), ("regenerate", "A", 2, "GTP"),
+           ("consume", "B", 1, "ATP", False), ("consume", "B", 1, "GTP", False), ("consume", "B", 1, "NADH", False)]
+G_OPS = {
+    "spend-gtp": [("consume", "A", 1, "GTP", False)],
+    "gtp-debt": [("consume", "A", 3, "GTP", True)],
+    "nadh-debt": [("consume", "A", 4, "NADH", True)],
+    "atp-topup-debt": [("consume", "A", 6, "ATP", True)],
+    "regen-atp": [("regenerate", "A", 2, "ATP")],
+    "regen-gtp": [("regenerate", "A", 2, "GTP")],
+    "regen-nadh": [("regenerate", "A", 2, "NADH")],
+    "convert": [("convert", "A", 2)],
+    "xfer-out-gtp": [("transfer", "A", "B", 2, "GTP")],
+    "xfer-out-nadh": [("transfer", "A", "B", 2, "NADH")],
+    "xfer-in-atp": [("transfer", "B", "A", 2, "ATP")],
+    "xfer-in-gtp": [("transfer", "B", "A", 2, "GTP")],
+    "peek": [("get", "A", "ATP"), ("get", "A", "debt"), ("get", "A", "state")],
+    "report": [("report", "A")],
+}
+_READ_ONLY = ("peek", "report")
+GPAIRS = pair_family("G", G_CFG, G_SETUP, G_OPS, skip=lambda a, b: a in _READ_ONLY and b in _READ_ONLY)
+
+# --- D: starving / dormant start states and the per-call `priority` option; the start state is reached through
+# mutation after construction (max_debt assigned after __init__, a reset in the history).
+# stores after SETUP: A = atp 0/4, debt 0/2, STARVING ; B = atp 2/3
+D_CFG = {"A": (4, 0, 0, 0), "B": (3, 0, 0, 0)}
+D_SETUP = [("set", "A", "max_debt", 2), ("consume", "A", 2, "ATP", False), ("reset", "A"),
+           ("consume", "A", 4, "ATP", False), ("consume", "B", 1, "ATP", False)]
+D_OPS = {
+    "lowprio": [("consume", "A", 1, "ATP", True, 0)],
+    "prio5": [("consume", "A", 1, "ATP", True, 5)],
+    "prio5-big": [("consume", "A", 2, "ATP", True, 5)],
+    "prio10": [("consume", "A", 1, "ATP", True, 10)],
+    "regen": [("regenerate", "A", 2, "ATP")],
+    "xfer-in": [("transfer", "B", "A", 2, "ATP")],
+    "dormancy": [("dormant_in", "A"), ("dormant_out", "A")],
+}
+DPAIRS = pair_family("D", D_CFG, D_SETUP, D_OPS)
+
+# --- I (advisory): apply_debt_interest next to the listed operations. The statement does not list it, so a
+# non-sequential outcome is only counted; deadlock / exception / negative balance are still violations.
+# store after SETUP: A = atp 0/4, gtp 4/4, debt 2/6, debt_interest 1.0
+I_CFG = {"A": (4, 4, 0, 6, {"interest": 1.0})}
+I_SETUP = [("consume", "A", 6, "ATP", True)]
+I_OPS = {
+    "interest": [("interest", "A")],
+    "regen": [("regenerate", "A", 3, "ATP")],
+    "spend-debt": [("consume", "A", 2, "ATP", True)],
+}
+IPAIRS = pair_family("I", I_CFG, I_SETUP, I_OPS, opts={"advisory": True}, skip=lambda a, b: "interest" not in (a, b))
+
+# --- X: the state-change callback raises (an exception with an empty message) while the store's lock(s) are
+# held: the lock must be released on that path too, and what the call did before notifying stays done. A call
+# ending in the callback's exception is an expected return value here ("raised", class name).
+# stores after SETUP: A = atp 2/4, debt 0/2 (NORMAL), callback raises on every change ; B = atp 2/3, no callback
+X_CFG = {"A": (4, 0, 0, 2, {"cb": "raise"}), "B": (3, 0, 0, 0)}
+X_SETUP = [("set", "A", "on_state_change", None), ("consume", "A", 2, "ATP", False), ("consume", "B", 1, "ATP", False),
+           ("set", "A", "on_state_change", "cb")]
+X_OPS = {
+    "spend1": [("consume", "A", 1, "ATP", False)],
+    "spend-debt": [("consume", "A", 3, "ATP", True)],
+    "regen": [("regenerate", "A", 2, "ATP")],
+    "xfer-in": [("transfer", "B", "A", 2, "ATP")],
+    "xfer-out": [("transfer", "A", "B", 1, "ATP")],
+    "reset": [("reset", "A")],
+}
+XPAIRS = pair_family("X", X_CFG, X_SETUP, X_OPS, opts={"raising_cb": True})
+
+# --- T (thorough): three-thread variants of the most contended P kinds (every multiset of three of the kinds that
+# debit, credit or convert into A's ATP pool; one kind per thread)
+T_KINDS = ["spend-topup", "spend-debt", "regen", "convert", "xfer-out"]
+TRIPLES = []
+for _t in itertools.combinations_with_replacement(T_KINDS, 3):
+    _n = "T:" + "|".join(_t)
+    H[_n] = (PAIR_CFG, [PAIR_OPS[k] for k in _t])
+    SETUP[_n] = PAIR_SETUP
+    TRIPLES.append(_n)
 
 QUICK = ["S1-consume-consume", "S2-consume-regenerate", "S3-topup-convert", "S4-debt-debt", "S5-opposite-transfers",
-         "S6-transfer-consume", "S7-three-threads", "S8-transfer-vs-two-consumes", "S13-two-agents-express"]
+         "S6-transfer-consume", "S7-three-threads", "S8-transfer-vs-two-consumes", "S13-two-agents-express",
+         "S5r-opposite-transfers-ranks-reversed", "S10-self-transfer-and-regen", "R0-underfunded-ring",
+         "R0r-underfunded-ring-ranks-reversed"]
+OPCODE = ["S1-consume-consume", "S2-consume-regenerate", "S4-debt-debt", "S6-transfer-consume"]
+RINGS = [n for n in H if n.startswith("R")]
+
+
+def plan(tier):
+    """[(harness, preemption bound)] at line granularity. quick: bound 2, except the wide G family at bound 1
+    (one preemption = one thread stopped anywhere inside its call while the other runs its call to the end);
+    thorough: bound 3, except the G family and the three-thread rings and triples at bound 2."""
+    if tier == "quick":
+        return [(n, 2) for n in QUICK + PAIRS + DPAIRS + IPAIRS + XPAIRS] + [(n, 1) for n in GPAIRS]
+    two = set(RINGS) | set(TRIPLES) | set(GPAIRS)
+    return [(n, 2 if n in two else 3) for n in H]
 
 
 class _Null(io.TextIOBase):
@@ -84,22 +231,88 @@ class _Null(io.TextIOBase):
         return len(s)
 
 
-def mk_stores(cfgs):
-    stores = {}
-    for name, (b, g, n, d) in cfgs.items():
-        s = ATP_Store(budget=b, gtp_budget=g, nadh_reserve=n, max_debt=d, silent=True)
+# ---- scheduler-aware locks whose acquisition is itself a scheduling point -----------------------------------
+class PointLock(sched.CoopLock):
+    """CoopLock + a scheduling point between back-to-back acquisitions: `with first._lock, second._lock:` is one
+    source line, so the line tracer alone would make the two acquisitions one indivisible step. A point is
+    inserted in front of an acquisition iff no scheduling point has been passed since the same thread's previous
+    acquisition returned (the first acquisition of a line directly follows that line's own point)."""
+
+    def acquire(self, blocking=True, timeout=-1):
+        s, me = self._me()
+        if s is None:
+            return super().acquire(blocking, timeout)
+        last = s.__dict__.setdefault("_acquired_at", {})
+        if last.get(me) == s.npoints and not (self.reentrant and self.owner == me):
+            s.point(me, ("acquire", self.name))
+        try:
+            return super().acquire(blocking, timeout)
+        finally:
+            last[me] = s.npoints
+
+
+_LOCK_T = type(threading.Lock())
+_RLOCK_T = type(threading.RLock())
+
+
+def install_locks(obj):
+    out = []
+    for k, v in list(vars(obj).items()):
+        if isinstance(v, (_LOCK_T, _RLOCK_T)):
+            setattr(obj, k, PointLock(isinstance(v, _RLOCK_T), f"{type(obj).__name__}.{k}"))
+            out.append(k)
+    return out
+
+
+class Stores(dict):
+    logs: dict
+
+
+def _recorder(stores, name, log, raises):
+    def on_state_change(st):
+        log.append((st.value, stores[name].get_balance(), stores[name].get_debt()))
+        if raises:
+            raise ValueError()
+    return on_state_change
+
+
+def mk_stores(cfgs, order=None):
+    stores = Stores()
+    stores.logs = {}
+    for name in (order or list(cfgs)):
+        if name == "_":
+            ATP_Store(budget=1, silent=True)  # unrelated instance: takes a lock rank
+            continue
+        b, g, n, d = cfgs[name][:4]
+        o = cfgs[name][4] if len(cfgs[name]) > 4 else {}
+        kw = {}
+        if "interest" in o:
+            kw["debt_interest"] = o["interest"]
+        if o.get("cb"):
+            log = stores.logs[name] = []
+            kw["on_state_change"] = _recorder(stores, name, log, o["cb"] == "raise")
+        s = ATP_Store(budget=b, gtp_budget=g, nadh_reserve=n, max_debt=d, silent=o.get("silent", True), **kw)
         # scheduler-aware locks everywhere, also in the sequential reference runs: there a call that
         # re-acquires a lock it already holds raises HangDetected instead of hanging the check
-        sched.install_locks(s)
+        install_locks(s)
         stores[name] = s
+        s._cb = kw.get("on_state_change")  # harness-side handle for ("set", store, "on_state_change", "cb")
     return stores
+
+
+def call(stores, op):
+    """apply, with an exception escaping from the user's callback turned into the call's return value"""
+    try:
+        return apply(stores, op)
+    except Exception as e:  # noqa: BLE001
+        return ("raised", type(e).__name__)
 
 
 def apply(stores, op):
     k = op[0]
     s = stores[op[1]]
     if k == "consume":
-        return s.consume(op[2], "op", ET[op[3]], allow_debt=op[4])
+        return s.consume(op[2], "op", ET[op[3]], allow_debt=op[4], **({"priority": op[5]} if len(op) > 5 else {}))
     if k == "regenerate":
         return s.regenerate(op[2], ET[op[3]])
     if k == "convert":
@@ -112,6 +325,20 @@ def apply(stores, op):
         return s.exit_dormancy()
     if k == "reset":
         return s.reset()
+    if k == "interest":
+        return s.apply_debt_interest()
+    if k == "get":
+        if op[2] == "debt":
+            return s.get_debt()
+        if op[2] == "state":
+            return s.get_state().value
+        return s.get_balance(ET[op[2]])
+    if k == "report":
+        r = s.get_report()
+        st = s.get_statistics()
+        return (r.atp, r.gtp, r.nadh, r.debt, st["atp"], st["gtp"], st["nadh"], st["debt"])
+    if k == "set":  # public attribute assigned after construction (setup only)
+        return setattr(s, op[2], s._cb if op[3] == "cb" else op[3])
     if k == "express":
         from operon_ai.core.agent import BioAgent
         from operon_ai.core.types import Signal
@@ -122,6 +349,7 @@ def apply(stores, op):
 
 def final(stores):
     return tuple((n, s.atp, s.gtp, s.nadh, s.get_debt(), s.get_state().value, s.get_statistics()["total_consumed"])
+                 + ((tuple(stores.logs[n]),) if n in stores.logs else ())
                  for n, s in sorted(stores.items()))
 
 
@@ -131,7 +359,7 @@ def interleavings(lens):
     return sorted(set(itertools.permutations(ids)))
 
 
-def sequential_outcomes(cfgs, threads, split, setup=()):
+def sequential_outcomes(cfgs, threads, split, setup=(), order=None, do=apply):
     """Reference: the implementation itself, run sequentially in every order of the calls.
     split=True: a transfer counts as two atomic steps (debit, later credit)."""
     outs = set()
@@ -145,17 +373,17 @@ def sequential_outcomes(cfgs, threads, split, setup=()):
             else:
                 ts.append(op)
         steps.append(ts)
-    for order in interleavings([len(t) for t in steps]):
-        stores = mk_stores(cfgs)
+    for order_ in interleavings([len(t) for t in steps]):
+        stores = mk_stores(cfgs, order)
         for op in setup:
             apply(stores, op)
         sink = ATP_Store(budget=10**6, gtp_budget=10**6, nadh_reserve=10**6, silent=True)
         sink.atp = sink.gtp = sink.nadh = 0
-        sched.install_locks(sink)
+        install_locks(sink)
         pos = [0] * len(steps)
         rets = [[] for _ in steps]
         pend = {}
-        for tid in order:
+        for tid in order_:
             op = steps[tid][pos[tid]]
             pos[tid] += 1
             if op[0] == "xfer_debit":
@@ -167,11 +395,16 @@ def sequential_outcomes(cfgs, threads, split, setup=()):
             elif op[0] == "xfer_credit":
                 r = pend.pop(tid)
                 if r:
-                    stores[op[2]].regenerate(op[3], ET[op[4]])
+                    try:
+                        stores[op[2]].regenerate(op[3], ET[op[4]])
+                    except Exception as e:  # noqa: BLE001
+                        if do is apply:
+                            raise
+                        r = ("raised", type(e).__name__)
                 rets[tid].append(r)
             else:
                 try:
-                    rets[tid].append(apply(stores, op))
+                    rets[tid].append(do(stores, op))
                 except sched.HangDetected as e:
                     return {("sequential-hang", f"{op}: {e}")}
         outs.add((tuple(tuple(r) for r in rets), final(stores)))
@@ -180,15 +413,17 @@ def sequential_outcomes(cfgs, threads, split, setup=()):
 
 def make_factory(name):
     cfgs, threads = H[name]
+    order = OPTS.get(name, {}).get("order")
+    do = call if OPTS.get(name, {}).get("raising_cb") else apply
 
     def make():
-        stores = mk_stores(cfgs)
+        stores = mk_stores(cfgs, order)
         for op in SETUP.get(name, ()):
             apply(stores, op)
 
         def body(ops):
             def run():
-                return tuple(apply(stores, op) for op in ops)
+                return tuple(do(stores, op) for op in ops)
             return run
 
         def finish(ex):
@@ -205,16 +440,80 @@ def make_factory(name):
         make.invariant = invariant
         return [body(t) for t in threads], finish
 
+    make.invariant = None
     return make
+
+
+def _invariant_of(make):
+    def inv():
+        f = make.invariant
+        return f() if f else None
+    return inv
+
+
+def project(outcome, mask):
+    """the outcome with the values returned by getters blanked"""
+    rets, fin = outcome
+    return (tuple(tuple(None if m else r for r, m in zip(tr, tm)) for tr, tm in zip(rets, mask)), fin)
+
+
+def _negative_reads(threads, rets):
+    bad = []
+    for t, tr in zip(threads, rets):
+        for op, r in zip(t, tr):
+            if op[0] == "get" and isinstance(r, int) and r < 0:
+                bad.append((op, r))
+            if op[0] == "report" and any(x < 0 for x in r):
+                bad.append((op, r))
+    return bad
 
 
 def judge_factory(name):
     cfgs, threads = H[name]
+    setup = SETUP.get(name, ())
+    opts = OPTS.get(name, {})
+    order = opts.get("order")
     with contextlib.redirect_stdout(_Null()):
-        strict = sequential_outcomes(cfgs, threads, split=False, setup=SETUP.get(name, ()))
-        split = sequential_outcomes(cfgs, threads, split=True, setup=SETUP.get(name, ()))
-
+        do = call if opts.get("raising_cb") else apply
+        strict = sequential_outcomes(cfgs, threads, split=False, setup=setup, order=order, do=do)
+        split = sequential_outcomes(cfgs, threads, split=True, setup=setup, order=order, do=do)
+        start = mk_stores(cfgs, order)
+        for op in setup:
+            apply(start, op)
     hang = [o for o in strict if o and o[0] == "sequential-hang"]
+    kinds = {op[0] for t in threads for op in t}
+    mask = [[op[0] in GETTERS for op in t] for t in threads]
+    has_getters = any(any(m) for m in mask)
+    strict_proj = set() if hang or not has_getters else {project(o, mask) for o in strict}
+    # observer-side accounting (public call history only): wealth = atp + gtp + nadh - debt over all stores;
+    # a successful spend lowers it by exactly its cost, a regeneration raises it by at most its amount,
+    # convert / transfer / dormancy never raise it
+    w_start = sum(s.atp + s.gtp + s.nadh - s.get_debt() for s in start.values())
+    max_debt = {n: s.max_debt for n, s in start.items()}
+    accountable = not (kinds & {"reset", "express", "interest", "set"})
+    debt_capped = "interest" not in kinds
+
+    def clauses(outcome):
+        rets, fin = outcome
+        v = []
+        for e in fin:
+            n, atp, gtp, nadh, debt = e[:5]
+            if min(atp, gtp, nadh, debt) < 0:
+                v.append((f"negative-balance:{name}", f"final state of {n}: atp={atp} gtp={gtp} nadh={nadh} debt={debt}"))
+            elif debt_capped and debt > max_debt[n]:
+                v.append((f"debt-over-limit:{name}", f"final debt of {n} is {debt} > max_debt {max_debt[n]}"))
+        bad = _negative_reads(threads, rets)
+        if bad:
+            v.append((f"negative-balance-read:{name}", f"a getter returned a negative value: {bad[:3]}"))
+        if accountable and not v:
+            spent = sum(op[2] for t, tr in zip(threads, rets) for op, r in zip(t, tr) if op[0] == "consume" and r is True)
+            regen = sum(op[2] for t in threads for op in t if op[0] == "regenerate")
+            w_end = sum(e[1] + e[2] + e[3] - e[4] for e in fin)
+            if spent > w_start - w_end + regen:
+                v.append((f"overspend:{name}", f"successful spends total {spent} > {w_start - w_end + regen} available: wealth "
+                                               f"(atp+gtp+nadh-debt over all stores) went from {w_start} to {w_end} with at "
+                                               f"most {regen} regenerated"))
+        return v
 
     def judge(ex, outcome):
         v = []
@@ -231,14 +530,20 @@ def judge_factory(name):
                 v.append((f"call-{r[0]}:{name}", f"thread ended with {r}"))
         if v:
             return v
-        if outcome in strict:
+        if ex.invariant_failures:
+            v.append((f"negative-balance:{name}", f"at a scheduling point: {ex.invariant_failures[0]}"))
+        seen = {k for k, _w in v}
+        v += [c for c in clauses(outcome) if c[0] not in seen]
+        if outcome in strict or opts.get("advisory"):
             return v
+        if has_getters and project(outcome, mask) in strict_proj:
+            return v  # only a getter's value differs: lock-free single reads (counted in run())
         if outcome in split:
             v.append(("nonatomic-transfer", f"{name}: outcome {outcome} needs the transfer split into debit and credit; "
                                             f"not reachable by any sequential order of the calls"))
             return v
         v.append((f"non-linearizable:{name}", f"outcome {outcome} is not produced by any sequential order "
-                                                f"(sequential outcomes: {sorted(strict)[:4]}...)"))
+                                                f"(sequential outcomes: {sorted(strict, key=repr)[:4]}...)"))
         return v
 
     return judge, strict, split
@@ -247,15 +552,15 @@ def judge_factory(name):
 def run_harness(name, bound, opcodes=False, nproc=None):
     make = make_factory(name)
     judge, strict, split = judge_factory(name)
-
-    def inv():
-        f = getattr(make, "invariant", None)
-        return f() if f else None
-
-    with contextlib.redirect_stdout(_Null()):  # BioAgent.express prints; one process-wide redirect, not per thread
-        res = sched.explore(make, bound, judge, nproc=nproc, trace_files=TRACE, opcodes=opcodes, invariant=None)
+    with contextlib.redirect_stdout(_Null()):  # BioAgent.express / silent=False print; one process-wide redirect
+        res = sched.explore(make, bound, judge, nproc=nproc, trace_files=TRACE, opcodes=opcodes,
+                            invariant=_invariant_of(make))
     res["strict"] = len(strict)
     res["split"] = len(split)
+    # schedules whose outcome no sequential order produces (violations unless the harness is advisory or only a
+    # getter's value differs; both are reported as observations)
+    seq = {repr(o) for o in strict}
+    res["non_sequential"] = sum(c for o, c in res["outcomes"].items() if o not in seq)
     return res
 
 
@@ -264,34 +569,55 @@ def _strip(res):
     return res
 
 
+def _is_small(name):
+    return name[:2] in ("P:", "G:", "D:", "I:", "T:", "X:")
+
+
 def run(ctx):
-    names = QUICK + PAIRS if ctx.tier == "quick" else list(H)
+    todo = plan(ctx.tier)
     bound = 2 if ctx.tier == "quick" else 3
     total_exec = 0
     per = {}
-    # sanity: the CoopLock replacement must find the lock the code actually uses
+    # sanity: the lock replacement must find the lock the code actually uses
     s = ATP_Store(budget=1, silent=True)
-    ctx.coverage["locks_replaced"] = sched.install_locks(s)
-    big = [n for n in names if not n.startswith("P:")]
-    small = [n for n in names if n.startswith("P:")]
+    ctx.coverage["locks_replaced"] = install_locks(s)
+    big = [x for x in todo if not _is_small(x[0])]
+    small = [x for x in todo if _is_small(x[0])]
     results = []
-    for name in common.rotate(big, ctx.seed):  # large trees: parallel inside the harness
-        results.append((name, run_harness(name, bound)))
+    for name, b in common.rotate(big, ctx.seed):  # large trees: parallel inside the harness
+        results.append((name, b, run_harness(name, b)))
     # many small trees: one harness per worker
     small = common.rotate(small, ctx.seed)
-    results += list(zip(small, common.pmap(lambda n: _strip(run_harness(n, bound, nproc=1)), small)))
-    for name, res in results:
+    results += [(n, b, r) for (n, b), r in zip(small, common.pmap(lambda x: _strip(run_harness(x[0], x[1], nproc=1)), small))]
+    results.sort(key=lambda x: x[0])
+    for name, b, res in results:
         total_exec += res["executions"]
         per[name] = {"schedules": res["executions"], "distinct_outcomes": len(res["outcomes"]),
                      "sequential_outcomes": res["strict"], "max_choice_points": res["max_choice_points"],
-                     "max_preemptions": res["max_preemptions"], "preemption_bound": bound, "capped": res["capped"]}
+                     "max_preemptions": res["max_preemptions"], "preemption_bound": b, "capped": res["capped"]}
         for o in res["outcomes"]:
             ctx.outcomes.add((name, o))
         for k, what, case in res["violations"]:
             ctx.report(k, what, {"harness": name, **case})
         ctx.stats["points"] += res["max_choice_points"]
+        if res["non_sequential"]:
+            per[name]["non_sequential_schedules"] = res["non_sequential"]
+            kind = "unsynchronised-interest" if OPTS.get(name, {}).get("advisory") else "getter-intermediate-read"
+            ctx.stats[f"not-asserted:{kind}:schedules"] += res["non_sequential"]
+            ctx.stats[f"not-asserted:{kind}:harnesses"] += 1
+    if ctx.stats["not-asserted:getter-intermediate-read:schedules"]:
+        ctx.note("getters are lock-free single reads: in %d schedules of %d harnesses a value returned by a getter running "
+                 "next to a mutator is an intermediate one (all other return values and the final state are those of a "
+                 "sequential order); not asserted — the statement quantifies over spend/regenerate/convert/transfer calls"
+                 % (ctx.stats["not-asserted:getter-intermediate-read:schedules"],
+                    ctx.stats["not-asserted:getter-intermediate-read:harnesses"]))
+    if ctx.stats["not-asserted:unsynchronised-interest:schedules"]:
+        ctx.note("apply_debt_interest takes no lock: %d schedules of %d harnesses end in an outcome no sequential order "
+                 "produces; not asserted — it is not one of the operations the statement lists"
+                 % (ctx.stats["not-asserted:unsynchronised-interest:schedules"],
+                    ctx.stats["not-asserted:unsynchronised-interest:harnesses"]))
     if ctx.tier == "thorough":
-        for name in ["S1-consume-consume", "S2-consume-regenerate", "S4-debt-debt", "S6-transfer-consume"]:
+        for name in OPCODE:
             res = run_harness(name, 2, opcodes=True)
             total_exec += res["executions"]
             per[name + "@opcode"] = {"schedules": res["executions"], "distinct_outcomes": len(res["outcomes"]),
@@ -300,6 +626,10 @@ def run(ctx):
             for k, what, case in res["violations"]:
                 ctx.report(k, what, {"harness": name, "opcodes": True, **case})
     ctx.sample({"harness": "S8-transfer-vs-two-consumes", "threads": H["S8-transfer-vs-two-consumes"][1]})
+    ctx.sample({"harness": "G:atp-topup-debt|xfer-in-atp", "stores": G_CFG, "setup": G_SETUP,
+                "threads": H["G:atp-topup-debt|xfer-in-atp"][1]})
+    ctx.sample({"harness": "R2-transfer-ring-ranks-reversed", "threads": _RING[1],
+                "creation_order": OPTS["R2-transfer-ring-ranks-reversed"]["order"]})
     ctx.sample(per)
     ctx.coverage.update(
         states=sum(p["max_choice_points"] for p in per.values()),
@@ -307,16 +637,25 @@ def run(ctx):
         traces_validated_against_impl=total_exec,
         evaluations=total_exec,
         distinct_nontrivial=len(ctx.outcomes),
-        rule="every schedule of each harness up to the preemption bound, scheduling point = every source line of "
-             "metabolism.py (+ every bytecode in the @opcode runs); distinct = distinct (harness, outcome) pairs; "
+        rule="every schedule of each harness up to its preemption bound, scheduling point = every source line of "
+             "metabolism.py and every lock acquisition (+ every bytecode in the @opcode runs); harness families: "
+             "hand-picked collisions S*, lock-rank variants and three-store transfer rings R*, all unordered pairs of "
+             "operation kinds from several start states (P: ATP mid state; G: three currencies, debt carried, silent=False, "
+             "state-change callback, getters; D: starving/dormant with priorities; X: raising state-change callback; "
+             "I: apply_debt_interest, advisory), "
+             "three-thread multisets T* (thorough); distinct = distinct (harness, outcome) pairs; "
              "'states' = sum over harnesses of the maximum number of scheduling choice points in one execution",
         exhaustive=all(p["capped"] == 0 for p in per.values()),
         harnesses=per,
+        harness_count=len(per),
         preemption_bound=bound,
+        op_kinds={"P": len(PAIR_OPS), "G": len(G_OPS), "D": len(D_OPS), "X": len(X_OPS), "I": len(I_OPS), "T": len(T_KINDS)},
     )
     ctx.assumptions += [
-        "CoopLock has the mutual-exclusion semantics of threading.Lock; C-level atomicity of a single bytecode is trusted",
+        "PointLock/CoopLock has the mutual-exclusion semantics of threading.Lock/RLock; C-level atomicity of a single bytecode is trusted",
         "interleavings are explored at source-line granularity (bytecode granularity on 4 harnesses in the thorough tier)",
+        "regeneration_rate > 0 (a real timer thread sleeping 1 s) is not constructed; the background thread is modelled by an "
+        "explicit regenerate() thread",
     ]
 
 
@@ -326,7 +665,9 @@ def replay(ctx, case):
     judge, _s, _p = judge_factory(name)
     outs = []
     for _ in range(2):
-        ex, outcome = sched.run_schedule(make, tuple(case["schedule"]), trace_files=TRACE, opcodes=bool(case.get("opcodes")))
+        with contextlib.redirect_stdout(_Null()):
+            ex, outcome = sched.run_schedule(make, tuple(case["schedule"]), trace_files=TRACE, opcodes=bool(case.get("opcodes")),
+                                             invariant=_invariant_of(make))
         outs.append((outcome, ex.deadlock))
     if repr(outs[0]) != repr(outs[1]):
         raise common.HarnessError(f"replay not deterministic: {outs}")
